@@ -87,9 +87,28 @@ def opCfg (args : List String) (impl : String) : Verdict :=
         else if (["port", "interface", "seed"].any fun k => ¬ entries.any (·.1 = k)) ∧ (fOut ≠ "refused" ∨ eOut ≠ "refused") then
           some "C16: start-up succeeds although a required setting is missing"
         else none
+    -- the server binary itself (`main`): what must be refused must make its start-up fail
+    let mainF := ((kvLookup imp "mainfile").splitOn "~").headD ""
+    let mainE := ((kvLookup imp "mainenv").splitOn "~").headD ""
+    -- how the probe's refusal came about: an `Err` / a `false` of the validator end `main` with status 1, a panic with 101
+    let expectMain (field : String) : String := if ((kvLookup imp field).splitOn "~").getD 1 "" = "panic" then "exit:101" else "exit:1"
+    let mustFail : Bool :=
+      (entries.any fun kv => decide (kv.1 ∈ intKeys) && (match yamlInt kv.2 with | some v => documented kv.1 v == some false | none => false)) ||
+      (entries.any fun kv => decide (kv.1 ∉ knownKeys)) || (["port", "interface", "seed"].any fun k => !(entries.any fun kv => kv.1 == k))
+    let l1v := match l1v with
+      | some e => some e
+      | none =>
+        if mustFail ∧ (mainF = "running" ∨ mainE = "running") then
+          some ("C16: the server binary keeps running although these settings must make start-up fail (file: " ++ mainF ++ ", env: " ++ mainE ++ ")")
+        else none
     match l1v with
     | some e => l1 label e
     | none =>
+      -- model of main's wiring: a refused configuration ends the process with status 1
+      let mainBad (m : String) (field : String) := m ≠ "" ∧ m ≠ "skip" ∧ m ≠ expectMain field
+      if fOut = "refused" ∧ mainBad mainF "mainfile" then l2 label ("file: the loader/validator refuse, the server binary: " ++ mainF ++ " (model of main: " ++ expectMain "mainfile" ++ ")")
+      else if eOut = "refused" ∧ mainBad mainE "mainenv" then l2 label ("env: the loader/validator refuse, the server binary: " ++ mainE ++ " (model of main: " ++ expectMain "mainenv" ++ ")")
+      else
       if fOut ≠ mF then l2 label ("file: model=" ++ mF.take 200 ++ " impl=" ++ fOut.take 200)
       else if eOut ≠ mE then l2 label ("env: model=" ++ mE.take 200 ++ " impl=" ++ eOut.take 200)
       else ok label
